@@ -303,7 +303,8 @@ def _set(obj: dict, dotted: str, val: Any) -> None:
     cur[ks[-1]] = val
 
 
-def gen_doc(rng: random.Random, mp: dict, hostile: bool, noise: float = 1.0) -> Any:
+def gen_doc(rng: random.Random, mp: dict, hostile: bool, noise: float = 1.0,
+            big: bool = False) -> Any:
     """A document shaped after the mapping's spine, with (noise) missing keys, empty/null
     arrays, several elements per level, attribute arrays and (hostile) shape confusion."""
     spine = mp["spine"]
@@ -368,7 +369,10 @@ def gen_doc(rng: random.Random, mp: dict, hostile: bool, noise: float = 1.0) -> 
             elif hostile and r < 0.18 * noise + 0.02:
                 _set(obj, spine[level], rng.choice(["scalar", 3, {"a": {"x": 1}}]))
             else:
-                _set(obj, spine[level], [fill(level + 1) for _ in range(rng.choice([1, 1, 2, 3]))])
+                n_el = rng.choice([1, 1, 2, 3])
+                if big and level == len(spine) - 1:
+                    n_el = rng.randint(150, 400)     # a serialised line far beyond 64 KiB
+                _set(obj, spine[level], [fill(level + 1) for _ in range(n_el)])
         return obj
     return fill(0)
 
